@@ -98,6 +98,14 @@ def wrap(v, it):
     return v
 
 
+def top_level_const(t):
+    """Is a variable of this (written) type itself const?  `const T* p` is a mutable pointer to const."""
+    t = (t or '').strip()
+    if '*' in t and not t.endswith('&'):
+        return bool(re.search(r'\*\s*const$', t))
+    return t.startswith('const ') or t.endswith(' const') or bool(re.search(r'\bconst\s*&$', t)) or ' const ' in t and '*' not in t
+
+
 class Folder(object):
     """Folds integer constant expressions; resolves const variables with constant
     initialisers through the unit's declaration index."""
@@ -190,7 +198,7 @@ class Folder(object):
                 if d is None:
                     return None
                 t = qtype(d)
-                if not (t.startswith('const ') or ' const' in t or d.get('constexpr')):
+                if not (top_level_const(t) or d.get('constexpr')):
                     return None
                 key = ('v', d['id'])
                 if key in self._memo:
